@@ -310,6 +310,7 @@ Backtrack:
 		current = skipped.n.children[skipped.childIndex]
 
 		*c.params = (*c.params)[:skipped.paramCnt]
+		paramCnt = skipped.paramCnt
 		charsMatched = skipped.pathIndex
 		goto Walk
 	}
@@ -615,6 +616,7 @@ Backtrack:
 		current = skipped.n.children[skipped.childIndex]
 
 		*c.params = (*c.params)[:skipped.paramCnt]
+		paramCnt = skipped.paramCnt
 		charsMatched = skipped.pathIndex
 		goto Walk
 	}
